@@ -167,7 +167,7 @@ def run_shard(ctx):
     def test(case):
         check_case(ctx, case)
 
-    runner.drive(ctx, test, ctx.n(400, 6000))
+    runner.drive(ctx, test, ctx.n(600, 8000))
     from checks import c08_files
     c08_files.run(ctx)
 
